@@ -360,6 +360,63 @@ func (t *Tr) damage(name string, items []jen.Code) []jen.Code {
 	return out
 }
 
+// typedLit: a conversion of a plain number literal to a sized numeric type, T(lit), is what Lit renders for a value of
+// that type; half of the time such a conversion is spelled Lit(T(v)) (only when the literal is what Lit prints for v:
+// decimal, shortest form).
+func (t *Tr) typedLit(x *ast.CallExpr) *jen.Statement {
+	id, ok := x.Fun.(*ast.Ident)
+	if !ok || id.Obj != nil || len(x.Args) != 1 || x.Ellipsis.IsValid() {
+		return nil
+	}
+	text, neg := "", false
+	switch a := x.Args[0].(type) {
+	case *ast.BasicLit:
+		text = a.Value
+	case *ast.UnaryExpr:
+		if bl, ok := a.X.(*ast.BasicLit); ok && a.Op == token.SUB {
+			text, neg = bl.Value, true
+		}
+	}
+	if text == "" {
+		return nil
+	}
+	if neg {
+		text = "-" + text
+	}
+	var v interface{}
+	switch id.Name {
+	case "float32":
+		f, err := strconv.ParseFloat(text, 32)
+		if err != nil {
+			return nil
+		}
+		v = float32(f)
+	case "int8", "int16", "int32", "int64":
+		n, err := strconv.ParseInt(text, 10, map[string]int{"int8": 8, "int16": 16, "int32": 32, "int64": 64}[id.Name])
+		if err != nil {
+			return nil
+		}
+		v = map[string]interface{}{"int8": int8(n), "int16": int16(n), "int32": int32(n), "int64": n}[id.Name]
+	case "uint", "uint8", "uint16", "uint32", "uint64", "uintptr":
+		n, err := strconv.ParseUint(text, 10, map[string]int{"uint": 64, "uint8": 8, "uint16": 16, "uint32": 32, "uint64": 64, "uintptr": 64}[id.Name])
+		if err != nil {
+			return nil
+		}
+		v = map[string]interface{}{"uint": uint(n), "uint8": uint8(n), "uint16": uint16(n), "uint32": uint32(n), "uint64": n, "uintptr": uintptr(n)}[id.Name]
+	default:
+		return nil
+	}
+	// only when the source spells the number the way Lit does (so that the re-parsed literal is the same token)
+	if fmt.Sprintf("%s(%#v)", id.Name, v) != id.Name+"("+text+")" && !(id.Name == "float32" && fmt.Sprintf("%v", v) == text) {
+		return nil
+	}
+	if !t.coin() {
+		return nil
+	}
+	t.hit("typed-lit")
+	return jen.Lit(v)
+}
+
 var predecl = map[string]func() *jen.Statement{
 	"bool": jen.Bool, "byte": jen.Byte, "complex64": jen.Complex64, "complex128": jen.Complex128, "error": jen.Error,
 	"float32": jen.Float32, "float64": jen.Float64, "int": jen.Int, "int8": jen.Int8, "int16": jen.Int16, "int32": jen.Int32,
@@ -708,6 +765,9 @@ func (t *Tr) expr0(e ast.Expr) *jen.Statement {
 		t.hit("assert")
 		return t.expr(x.X).Assert(t.expr(x.Type))
 	case *ast.CallExpr:
+		if st := t.typedLit(x); st != nil {
+			return st
+		}
 		args := t.exprs(x.Args)
 		if x.Ellipsis.IsValid() {
 			args[len(args)-1].(*jen.Statement).Op("...")
